@@ -9,6 +9,9 @@ import (
 	"path/filepath"
 	"strings"
 	"sync/atomic"
+	"time"
+
+	"github.com/scigolib/hdf5/internal/structures"
 )
 
 // ---------------------------------------------------------------------------------------
@@ -54,6 +57,8 @@ func (o vfOp) String() string {
 		return fmt.Sprintf("%s(%s->%s)", o.Op, o.Path, o.Target)
 	case "bad":
 		return fmt.Sprintf("bad:%s(%s)", o.Bad, o.Path)
+	case "toggle":
+		return fmt.Sprintf("toggle:%s", o.Bad)
 	default:
 		return fmt.Sprintf("%s(%s)", o.Op, o.Path)
 	}
@@ -329,6 +334,8 @@ func (w *vfWorld) Apply(o vfOp) (err error, panicked bool) {
 		return w.FW.CreateDenseGroup(o.Path, map[string]string{"x": o.Target}), false
 	case "bad":
 		return vfApplyBad(w, o), false
+	case "toggle":
+		return vfApplyToggle(w, o), false
 	case "close":
 		return w.Close(), false
 	}
@@ -513,4 +520,35 @@ func vfAttrOn(w *vfWorld, path, name string, v interface{}) error {
 		return g.WriteAttribute(name, v)
 	}
 	return fmt.Errorf("harness: no handle %q", path)
+}
+
+// vfToggles are the rebalancing controls that may be called at any time (C19).
+var vfToggles = []string{"DisableRebalancing", "EnableRebalancing", "EnableLazyRebalancing", "DisableLazyRebalancing",
+	"EnableIncrementalRebalancing", "StopIncrementalRebalancing", "ForceBatchRebalance", "RebalanceAllBTrees", "RebalanceAttributeBTree"}
+
+func vfApplyToggle(w *vfWorld, o vfOp) error {
+	fw := w.FW
+	switch o.Bad {
+	case "DisableRebalancing":
+		fw.DisableRebalancing()
+	case "EnableRebalancing":
+		fw.EnableRebalancing()
+	case "EnableLazyRebalancing":
+		return fw.EnableLazyRebalancing(structures.LazyRebalancingConfig{Enabled: true, Threshold: 0.05, MaxDelay: time.Nanosecond, BatchSize: 1})
+	case "DisableLazyRebalancing":
+		return fw.DisableLazyRebalancing()
+	case "EnableIncrementalRebalancing":
+		return fw.EnableIncrementalRebalancing(structures.IncrementalRebalancingConfig{Enabled: true, Budget: time.Microsecond, Interval: time.Microsecond})
+	case "StopIncrementalRebalancing":
+		return fw.StopIncrementalRebalancing()
+	case "ForceBatchRebalance":
+		return fw.ForceBatchRebalance()
+	case "RebalanceAllBTrees":
+		return fw.RebalanceAllBTrees()
+	case "RebalanceAttributeBTree":
+		if ds := w.DS[o.Path]; ds != nil {
+			return ds.RebalanceAttributeBTree()
+		}
+	}
+	return nil
 }
